@@ -116,9 +116,13 @@ def cli_of(scn, i, k):
     if scn.get('real_call'):
         if cmd['start']:
             return ['/nonexistent/verif-c19-binary-%d-%d' % (i, k)]
-        code = cmd['exit'] if cmd['exit'] >= 0 else 1
-        script = "printf '%%s' %s; printf '%%s' %s >&2; exit %d" % (
-            shlex.quote(cmd['out']), shlex.quote(cmd['err']), code)
+        if cmd['exit'] >= 0:
+            end = 'exit %d' % cmd['exit']
+        else:
+            # killed by a signal: subprocess.call returns -signal
+            end = 'kill -s %s $$' % {-9: 'KILL', -15: 'TERM'}[cmd['exit']]
+        script = "printf '%%s' %s; printf '%%s' %s >&2; %s" % (
+            shlex.quote(cmd['out']), shlex.quote(cmd['err']), end)
         return ['/bin/sh', '-c', script, 'sh-%d-%d' % (i, k)] + \
             list(cmd['args'])
     if tsk['via'] == 'factory':
@@ -165,8 +169,6 @@ def expected(scn, proc_log=()):
                 status, raised = 'FAILED', True
                 break
             code = cmd['exit']
-            if scn.get('real_call') and code < 0:
-                code = 1
             codes.append(code)
             if code != 0:
                 status = 'FAILED'
